@@ -2,7 +2,7 @@
 from .. import bb, chain as K, gen_index as GI
 
 NAMESPACE = "Rbp.Props.C04"
-REQUIRED = ["walk_eq_active", "index_is_active_chain", "competitors_invisible", "filter_spec", "tip_is_greatest_validated", "tip_sound"]
+REQUIRED = ["walk_eq_active", "index_is_active_chain", "competitors_invisible", "filter_spec", "tip_is_greatest_validated", "tip_sound", "tip_independent_of_table_order"]
 LEAN_FILES = ["Rbp/Model/Walk.lean", "Rbp/Model/Run.lean", "Rbp/Proofs/Index.lean"]
 RULE = ("black-box runs on generated block indexes = active chain 0..T (validity VALID_SCRIPTS, data+undo) plus 1..5 competitors drawn from: header-only records at/below/above the tip, never-connected stale siblings with data "
         "(also on top of the tip), failed blocks (FAILED_VALID / FAILED_CHILD, with and without data, also above the tip), once-connected then invalidated branches (validity VALID_SCRIPTS + data + FAILED_VALID/FAILED_CHILD, also reaching above the tip), once-active reorged-out branches of length 1..5 with tips below T, foreign f/l/F/R keys; competitor hashes are ground to sort "
